@@ -1,5 +1,6 @@
 import GormModel.Drv.Util
 import GormModel.Model.Where
+import GormModel.Model.InList
 import GormModel.Gen.GuardWhereFacts
 open Lean
 namespace Gorm.Drv
@@ -141,6 +142,26 @@ def parseStmtOp (j : Json) : Option StmtOp := do
   | some "fin" => some (.fin (← parseFinKind (← jStr? (arg a 1))) (← parseAtoms (arg a 2)) (← jBool? (arg a 3)))
   | _ => none
 
+def parseMapVal (a : Array Json) : Option MapVal :=
+  match jStr? (arg a 1) with
+  | some "scalar" => some .scalar
+  | some "nil" => some .nil
+  | some "slice" => do
+    let es ← jArr? (arg a 2)
+    some (.slice (← es.toList.mapM fun e => (jBool? e).map fun b => if b then Elem.null else Elem.val))
+  | _ => none
+
+def atomShapeJ (a : Atom) : Json :=
+  match a.kind, a.val with
+  | .inK, .list n => Json.arr #[Json.str "in", Json.str a.col, natJ n, natJ a.id]
+  | .eq, .nil => Json.arr #[Json.str "eq-null", Json.str a.col]
+  | _, _ => Json.arr #[Json.str "eq", Json.str a.col]
+
+def parseOptInt (j : Json) : Option (Option Int) :=
+  match j with
+  | Json.null => some none
+  | _ => (j.getInt?.toOption).map some
+
 def stateJ (s : StmtState) (rejected : Bool) : Json :=
   Json.mkObj [
     ("nexprs", match s.w.exprs with | none => Json.null | some es => natJ es.length),
@@ -178,6 +199,24 @@ def handleC02 (op : String) (args : Array Json) : Option Json := do
       ("sound", Json.bool (whereSound (st.exprs.getD []))),
       ("mixedNot", Json.bool (anyMixedNot (st.exprs.getD []))),
       ("nexprs", natJ (st.exprs.getD []).length)])
+  | "map.cond" =>
+    -- ["map.cond", [[key, "scalar"|"nil"|"slice", [isNull…]]…]] (keys sorted) -> expression shapes; the atom id carries the
+    -- number of NULL elements so that the shape records that they stay INSIDE the list
+    let entries ← (← jArr? (arg args 1)).toList.mapM fun e => do
+      let a ← jArr? e
+      let v ← parseMapVal a
+      let nulls := match v with
+        | .slice es => (es.filter (· == Elem.null)).length
+        | _ => 0
+      some (← jStr? (arg a 0), nulls, v)
+    some (Json.arr ((mapConds entries).map atomShapeJ).toArray)
+  | "in.sem" =>
+    -- ["in.sem", x|null, [e|null…], negated] -> "t"/"f"/"u"
+    let x ← parseOptInt (arg args 1)
+    let es ← (← jArr? (arg args 2)).toList.mapM parseOptInt
+    let neg ← jBool? (arg args 3)
+    let v := inListVal x es
+    some (v3J (if neg then v.not else v))
   | "guard" =>
     -- ["guard", chain, softFilter|null, unscoped, pk|null, allowGlobal] -> missing?
     let ch ← parseChain (arg args 1)
